@@ -46,7 +46,7 @@ Definition escape_word (w : word) : word :=
    Returns lines as word lists. *)
 Section Fill.
   Variable esc : word -> word.   (* markdown_escape_word *)
-  Variables (width c0 c1 : Z) (md : bool).
+  Variables (width c1 : Z) (md : bool).
 
   Fixpoint fill (ws : list word) (cur : list word) (col : Z) (first : bool)
     : list (list word) :=
@@ -60,8 +60,7 @@ Section Fill.
           match cur with
           | [] =>
               let ew := if md && negb first then esc w else w in
-              let line_offset := if first then c0 else c1 in
-              fill ws' [ew] (line_offset + wlen ew) first
+              fill ws' [ew] (c1 + wlen ew) first
           | _ =>
               let ew := if md then esc w else w in
               cur :: fill ws' [ew] (c1 + wlen ew) false
@@ -70,7 +69,7 @@ Section Fill.
 End Fill.
 
 Definition wrap_words (esc : word -> word) (ws : list word) (width c0 c1 : Z) (md : bool) : list (list word) :=
-  fill esc width c0 c1 md ws [] c0 true.
+  fill esc width c1 md ws [] c0 true.
 
 Definition maybe (b : bool) (f : str -> str) (s : str) : str := if b then f s else s.
 
@@ -122,5 +121,17 @@ Fixpoint chk_lines (esc : word -> word) (width c1 : Z) (md first : bool) (scol :
       && chk_lines esc width c1 md false c1 L' rest
   end.
 
+(* effective start column of line 0: the code accounts a first word that does not fit
+   at c0 as if the line started at the continuation offset (finding D-11). *)
+Definition scol0 (ws : list word) (width c0 c1 : Z) : Z :=
+  match ws with
+  | w :: _ => if c0 + wlen w <=? width then c0 else c1
+  | [] => c0
+  end.
+
 Definition wrap_ok (esc : word -> word) (ws : list word) (width c0 c1 : Z) (md : bool) (L : list (list word)) : bool :=
+  chk_lines esc width c1 md true (scol0 ws width c0 c1) L ws.
+
+(* the width bound as the property words it: line 0 measured from the real column c0 *)
+Definition wrap_ok_strict (esc : word -> word) (ws : list word) (width c0 c1 : Z) (md : bool) (L : list (list word)) : bool :=
   chk_lines esc width c1 md true c0 L ws.
